@@ -298,7 +298,8 @@ func checkC06(c *fw.Ctx) {
 			}
 			c.Check(len(extra) == 0, rule, "every required server gets a verification request", c.P.Pos(fw.InstrPos(st)), "", "the request for a required server is built only under an extra condition: "+strings.Join(extra, ","))
 		}
-		c.Check(nst == 1, rule, "VerifyJSONRequest."+f.field+" is set once", c.P.Pos(fn.Pos()), "", fmt.Sprintf("%d stores", nst))
+		// no store found: the requests are built where frames do not reach (a generic helper, another package): not decided
+		c.Expect(nst == 1, rule, "VerifyJSONRequest."+f.field+" is set once", c.P.Pos(fn.Pos()), "", fmt.Sprintf("%d stores to the field were found in the region of VerifyEventSignatures", nst))
 	}
 	// 3. success gates
 	succ := fw.ErrNilSuccess(fn, fw.ErrIndex(fn), nil)
